@@ -2,18 +2,22 @@
 
 // Machine contracts of the Prometheus instrumentation operators (C19): every callback forwards exactly the
 // notification it received (same context, except for the processing-time checkpoint value that is added to it,
-// same value) and performs exactly one increment / observation of the intended collector. Comments only.
+// same value) and performs exactly one increment / observation of the intended collector; each wrapper is built with the
+// constructor that adds no lock of its own (a locking wrapper makes a re-entrant or concurrent pipeline wait where the plain
+// one does not). Comments only.
 
 package roprometheus
 
 //@ operator IncCounterOnNext
 //@   props C19 C09
+//@   constructor NewUnsafeObservableWithContext
 //@   otherwise !res(call.isPrometheusEnabled) : returns source
 //@   track counter.*
 //@   on next(ctx, value) : emits counter.Inc(), Next(ctx, value)
 
 //@ operator IncCounterOnError
 //@   props C19 C09
+//@   constructor NewUnsafeObservableWithContext
 //@   otherwise !res(call.isPrometheusEnabled) : returns source
 //@   track counter.*
 //@   on next(ctx, value) : emits Next(ctx, value)
@@ -21,6 +25,7 @@ package roprometheus
 
 //@ operator IncCounterOnComplete
 //@   props C19 C09
+//@   constructor NewUnsafeObservableWithContext
 //@   otherwise !res(call.isPrometheusEnabled) : returns source
 //@   track counter.*
 //@   on next(ctx, value) : emits Next(ctx, value)
@@ -28,23 +33,27 @@ package roprometheus
 
 //@ operator ObserveNextLag
 //@   props C19 C09
+//@   constructor NewUnsafeObservableWithContext
 //@   otherwise !res(call.isPrometheusEnabled) : returns source
 //@   track summaryOrHistogram.*
 //@   on next(ctx, value) : emits Next(ctx, value), summaryOrHistogram.Observe(_)
 
 //@ operator observeBeforePipe
 //@   props C19 C09
+//@   constructor NewUnsafeObservableWithContext
 //@   track counterOnNext.* summaryOrHistogram.*
 //@   on next(ctx, value) : emits counterOnNext.Inc(), Next(withvalue(ctx), value), summaryOrHistogram.Observe(_)
 
 //@ operator observeOperatorProcessingTime
 //@   props C19 C09
+//@   constructor NewUnsafeObservableWithContext
 //@   track prometheusObserver.*
 //@   on next(ctx, value) when is_int64(res(ctx.Value)) : emits prometheusObserver.Observe(_), Next(withvalue(ctx), value)
 //@   on next(ctx, value) when !is_int64(res(ctx.Value)) : emits Next(withvalue(ctx), value)
 
 //@ operator observeAfterPipe
 //@   props C19 C09
+//@   constructor NewUnsafeObservableWithContext
 //@   track counterOnNext.* counterOnSubscription.*
 //@   on next(ctx, value) : emits counterOnNext.Inc(), Next(ctx, value)
 //@   on subscribe(subscriberCtx, destination) : emits counterOnSubscription.Inc()
